@@ -349,7 +349,7 @@ ASSUME = ['values are JSON-like (string-keyed dictionaries, no callables); '
 
 def main(argv):
     return run_check('C13', [PairStream()], argv, trusted_base=TRUSTED, assumptions=ASSUME,
-                     translated=('pin_inquiry',))
+                     translated=('pin_inquiry', 'pin_util'))
 
 
 if __name__ == '__main__':
